@@ -130,5 +130,10 @@ func main() {
 	dns2 = append(dns2, 3, 'w', 'w', 'w', 0xc0, 12, 0, 1, 0, 1, 0, 0, 0, 60, 0, 4, 1, 2, 3, 4)                         // www.ex.org A
 	dns2 = append(dns2, 2, 'm', 'x', 0xc0, 24, 0, 15, 0, 1, 0, 0, 0, 60, 0, 9, 0, 10, 4, 'm', 'a', 'i', 'l', 0xc0, 12) // mx.www.ex.org MX 10 mail.ex.org
 	emitRaw("dns-literal-labels-then-pointer-chain", "LayerTypeDNS", dns2)
+	// IPv4 whose options end with End-of-Option-List followed by padding bytes
+	i4p := ip4(layers.IPProtocolUDP)
+	i4p.Options = []layers.IPv4Option{{OptionType: 148, OptionLength: 4, OptionData: []byte{0, 0}}, {OptionType: 0, OptionLength: 1}}
+	i4p.Padding = []byte{0xaa, 0xbb, 0xcc}
+	emit("ipv4-router-alert-end-of-options-padding", "link:1", eth(layers.EthernetTypeIPv4), i4p, udp(9, 10), gopacket.Payload(fill(4, 8)))
 	emit("ipv4-two-record-route-options-tcp-two-sack-blocks", "link:1", eth(layers.EthernetTypeIPv4), i4, tcp, gopacket.Payload(fill(3, 7)))
 }
